@@ -208,3 +208,7 @@ def set_id_state(conn, free_ids, highest, max_request_id, orphans=()):
     conn.max_request_id = max_request_id
     conn.orphaned_request_ids = set(orphans)
     conn.in_flight = highest + 1 - len(free_ids)
+
+
+def World_cur():
+    return kit.World.cur
